@@ -10,15 +10,12 @@ import (
 
 // Verification hooks for the bounded-work guards (C02). Add-only.
 
-// VerifTreeDeeperThan parses src with x/net/html the way OpenReader does and exposes
+// VerifTreeDeeperThanSrc parses src with x/net/html the way OpenReader does and exposes
 // treeDeeperThan with the given limit.
-func VerifTreeDeeperThan(src string, limit int) (bool, error) {
+func VerifTreeDeeperThanSrc(src string, limit int) (bool, error) {
 	doc, err := html.Parse(strings.NewReader(src))
 	if err != nil {
 		return false, err
 	}
 	return treeDeeperThan(doc, limit), nil
 }
-
-// VerifMaxTreeDepth exposes the nesting limit of OpenReader.
-func VerifMaxTreeDepth() int { return maxTreeDepth }
